@@ -105,6 +105,12 @@ type attempt struct {
 	coord int   // index into members
 	ready []int // members the coordinator has heard "ready" from (it selects threshold+1 of them)
 	fault bool  // every member's first key-sign broadcast of this attempt fails
+	// arrivals (non-nil: instead of ready): the members whose "ready" messages reach the coordinator, in
+	// order of arrival; the start parameters are computed exactly as Coordinator.initiate computes them:
+	// readyPeers = [coordinator] + arrivals so far, after every arrival Ready(readyPeers) is asked, and
+	// the first time it says yes StartParams(readyPeers) is sent to EVERY member (also to those that are
+	// no key holders any more but still online)
+	arrivals []int
 }
 
 type sessionOut struct {
@@ -238,6 +244,34 @@ func runSession(hub *c08fakes.Hub, members []*member, sids []string, plan []atte
 		for i, r := range at.ready {
 			ready[i] = members[r].peer
 		}
+		if at.arrivals != nil {
+			ready = []peer.ID{members[at.coord].peer}
+			started := false
+			for _, a := range at.arrivals {
+				dup := false
+				for _, p := range ready {
+					dup = dup || p == members[a].peer
+				}
+				if !dup {
+					ready = append(ready, members[a].peer)
+				}
+				ok, err := members[at.coord].procs[0].Ready(ready, []peer.ID{})
+				if err != nil {
+					out.Note = "Ready: " + err.Error()
+					break
+				}
+				if ok {
+					started = true
+					break
+				}
+			}
+			if !started {
+				if out.Note == "" {
+					out.Note = "the coordinator never found enough ready peers"
+				}
+				break
+			}
+		}
 		// coordinator.go initiate: the start parameters of the first process go to every process
 		params := members[at.coord].procs[0].StartParams(ready)
 		var selected []peer.ID
@@ -281,11 +315,19 @@ func runSession(hub *c08fakes.Hub, members []*member, sids []string, plan []atte
 		}
 		deadline := time.After(timeout)
 		timedOut := false
+		hurry := false
 		for got := 0; got < n; {
 			select {
 			case e := <-errCh:
 				errs[e.m][e.k] = e.err
 				got++
+				var se *tss.SubsetError
+				if e.err != nil && !retryable(e.err) && !errors.As(e.err, &se) && !hurry {
+					// a process has failed for good (an error tss.Coordinator does not retry, a panic): the
+					// session cannot complete any more; its other processes get a few more seconds
+					hurry = true
+					deadline = time.After(8 * time.Second)
+				}
 			case <-deadline:
 				if timedOut { // second expiry: give up on the stragglers
 					got = n
